@@ -547,9 +547,58 @@ def explore_collection(spec, acc):
     acc.sample({"collection": impl, "attach": attach, "L": L, "histories": len(hists)}, f"coll-{impl}-{attach}")
 
 
+def check_shapes(spec, acc):
+    """features whose spans are nested or listed out of order, taken as one span; unions of three features of mixed
+    strands, in every order of the arguments"""
+    from cogent3 import make_seq
+
+    impl = spec["impl"]
+    parent = PARENT
+    L = len(parent)
+    span_lists = [[(2, 7), (3, 5)], [(3, 5), (2, 7)], [(1, 3), (5, 8)], [(0, 8), (2, 3), (4, 5)], [(1, 6), (2, 4), (3, 8)]]
+    for spans in span_lists:
+        for strand in "+-":
+            case = {"shapes": impl, "spans": [list(x) for x in spans], "strand": strand, "op": "as_one_span"}
+            acc.case(case, nontrivial=True)
+            try:
+                seq = make_seq(parent, name="s1", moltype="dna", new_type=impl == "new")
+                f = seq.add_feature(biotype="gene", name="f", spans=[list(x) for x in spans], strand=strand)
+                got = str(f.as_one_span().get_slice())
+            except Exception as e:  # noqa: BLE001
+                acc.fail(f"as_one_span().get_slice() raised {type(e).__name__} [{impl}; spans nested or out of order]", case, {"error": str(e)[:200]})
+                continue
+            lo, hi = min(a for a, _ in spans), max(b for _, b in spans)
+            want = parent[lo:hi]
+            want = rc(want) if strand == "-" else want
+            acc.outcome(("one_span", got == want))
+            if got != want:
+                acc.fail(f"as_one_span().get_slice() is not the stretch from the first to the last annotated position [{impl}; spans nested or out of order]",
+                         case, {"got": got, "want": want})
+    blocks = [(0, 2), (3, 5), (6, 8)]
+    for strands in itertools.product("+-", repeat=3):
+        for order in itertools.permutations(range(3)):
+            case = {"shapes": impl, "strands": list(strands), "order": list(order), "op": "union"}
+            acc.case(case, nontrivial=len(set(strands)) > 1)
+            try:
+                seq = make_seq(parent, name="s1", moltype="dna", new_type=impl == "new")
+                fs = [seq.add_feature(biotype="gene", name=f"f{i}", spans=[list(blocks[i])], strand=strands[i]) for i in range(3)]
+                first, rest = fs[order[0]], [fs[order[1]], fs[order[2]]]
+                got = str(first.union(rest).get_slice())
+            except Exception as e:  # noqa: BLE001
+                acc.fail(f"Feature.union raised {type(e).__name__} [{impl}]", case, {"error": str(e)[:200]})
+                continue
+            want = "".join(parent[a:b] for a, b in blocks)
+            if len(set(strands)) == 1 and strands[0] == "-":
+                want = rc(want)
+            acc.outcome(("union", got == want))
+            if got != want:
+                acc.fail(f"Feature.union of three features: residues [{impl}; " + ("one strand" if len(set(strands)) == 1 else "mixed strands") + "]", case, {"got": got, "want": want})
+    acc.sample({"feature shapes": span_lists, "unions of": blocks}, "shapes")
+
+
 def shards(tier, seed):
     b = bounds(tier)
-    out = []
+    out = [{"part": "shapes", "impl": impl} for impl in b["impls"]]
     for impl in b["impls"]:
         for off, attach in [(0, "add_feature")] + [(o, "attached db") for o in b["offsets"]]:
             for fc in range(8):
@@ -563,7 +612,9 @@ def shards(tier, seed):
 
 
 def run_shard(spec, acc):
-    if spec["part"] == "seq":
+    if spec["part"] == "shapes":
+        check_shapes(spec, acc)
+    elif spec["part"] == "seq":
         explore(spec, acc)
     elif spec["part"] == "coll":
         explore_collection(spec, acc)
@@ -575,7 +626,9 @@ def replay(case):
     from vf.kernel.runner import Acc
 
     acc = Acc()
-    if "coll" in case:
+    if "shapes" in case:
+        check_shapes({"impl": case["shapes"]}, acc)
+    elif "coll" in case:
         explore_collection({"impl": case["coll"], "L": case["L"], "attach": "add_feature" if case["attach"].startswith("members are") else case["attach"]}, acc)
     elif "aln" in case:
         rows = case["aln"]
